@@ -27,6 +27,22 @@ pub const CL_CUT: &str = "cut-inside-update-row-group";
 struct Boundary {
     rows: usize,
     snap: Snap,
+    /// how many messages of `msgs` lie before this boundary
+    n_msgs: usize,
+}
+
+/// what identifies one journal row on disk: rowid, timestamp column, record blob
+type RowId = (i64, String, Vec<u8>);
+
+fn fingerprints(path: &Path) -> Vec<RowId> {
+    let Ok(j) = Journal::from_file(path) else { return vec![] };
+    let conn = j.conn();
+    let Ok(mut stmt) = conn.prepare("SELECT _rowid_, timestamp, record FROM records ORDER BY _rowid_") else { return vec![] };
+    let rows = stmt.query_map((), |row| Ok((row.get::<_, i64>(0)?, row.get::<_, String>(1)?, row.get::<_, Vec<u8>>(2)?)));
+    match rows {
+        Ok(it) => it.filter_map(|r| r.ok()).collect(),
+        Err(_) => vec![],
+    }
 }
 
 struct Hist {
@@ -97,6 +113,63 @@ fn same_state(a: &Snap, b: &Snap) -> bool {
 }
 
 impl Hist {
+    /// is `s` the live state at a boundary not older than `last`?
+    fn boundary_state(&self, last: Option<usize>, s: &Snap) -> bool {
+        match last {
+            Some(i) => self.boundaries[i..].iter().any(|b| same_state(&b.snap, s)),
+            None => false,
+        }
+    }
+
+    /// The property's "optional second crash": the recovery itself may have written to the journal
+    /// (`before` = the rows it started from, `after` = the rows it left).  Whatever it wrote was written
+    /// row by row, so a stop during start-up leaves `after[..i]` for some i from the common prefix on;
+    /// each of these on-disk states — and the final one — must recover to a boundary state again, and
+    /// none older than the last acknowledged message.
+    fn judge_second_crash(&mut self, k: usize, journal: &Path, before: &[RowId], after: &[RowId], first: &Result<Snap, String>, rec: &mut Recorder, idx: usize) {
+        if before == after {
+            return; // the recovery did not touch the journal: a second stop finds what the first one found
+        }
+        rec.stat("recovery.modified-the-journal");
+        let last = self.boundaries.iter().rposition(|b| b.rows <= k);
+        let inside = !self.boundaries.iter().any(|b| b.rows == k);
+        let class = if inside { CL_CUT } else { "" };
+        let common = before.iter().zip(after.iter()).take_while(|(a, b)| a == b).count();
+        let tmp = self.dir.join("second.sqlite");
+        for i in common..=after.len() {
+            let upto = if i == 0 { 0 } else { after[i - 1].0 as usize };
+            if !cut_copy(journal, &tmp, upto) {
+                continue;
+            }
+            let what = match recover(&self.rt, &self.origin, &tmp) {
+                Err(e) => Some(format!("recovery failed: {e}")),
+                Ok(h) => {
+                    let s = c12::snapshot(&self.rt, &h);
+                    let ok = if i == after.len() { first.as_ref().map(|f| same_state(f, &s)).unwrap_or(false) } else { true };
+                    if !self.boundary_state(last, &s) {
+                        Some(format!("recovered a zone (serial {}, {} records) that is no message boundary at or after the last acknowledged one", s.serial, s.rrs.len()))
+                    } else if !ok {
+                        Some("recovered a different zone than the recovery that wrote this journal".to_string())
+                    } else {
+                        None
+                    }
+                }
+            };
+            if let Some(w) = what {
+                rec.stat(&format!("oracle.fail.{}", if inside { CL_CUT } else { "UNCLASSIFIED" }));
+                rec.fail(
+                    idx,
+                    format!(
+                        "the recovery from the journal cut after row {k} rewrote the journal ({} rows before, {} after, {} in common); a stop during that start-up leaving {} of the new rows: {w}",
+                        before.len(), after.len(), common, i
+                    ),
+                    class,
+                );
+                break;
+            }
+        }
+    }
+
     /// judge a recovery from the first k rows of the live journal
     fn judge_cut(&self, k: usize, got: &Result<Snap, String>, rec: &mut Recorder, idx: usize) {
         // last boundary whose rows are all on disk = the last acknowledged message
@@ -143,7 +216,9 @@ impl Hist {
             rec.stat("skipped.cut-copy-failed");
             return;
         }
+        let rows_before = fingerprints(&dst);
         let r = recover(&self.rt, &self.origin, &dst);
+        let rows_after = fingerprints(&dst);
         let got: Result<Snap, String> = match &r {
             Ok(h) => Ok(c12::snapshot(&self.rt, h)),
             Err(e) => Err(e.clone()),
@@ -155,6 +230,7 @@ impl Hist {
         let idx = rec.case(line, out);
         rec.stat(if restart { "op.restart" } else { "op.cut" });
         self.judge_cut(k, &got, rec, idx);
+        self.judge_second_crash(k, &dst, &rows_before, &rows_after, &got, rec, idx);
         if got.is_ok() && (self.boundaries.len() > 1 || restart) {
             rec.nontrivial(idx);
         }
@@ -163,7 +239,14 @@ impl Hist {
                 // continue on the recovered handler; what lies behind the cut never happened
                 let keep = self.boundaries.iter().filter(|b| b.rows <= k).count();
                 self.boundaries.truncate(keep.max(1));
-                self.msgs.truncate(self.boundaries.len() - 1);
+                let n_msgs = self.boundaries.last().map(|b| b.n_msgs).unwrap_or(0);
+                self.msgs.truncate(n_msgs);
+                if rows_after != rows_before {
+                    // the recovery renumbered / rewrote the rows: the recovered state is the only boundary left
+                    if let Ok(s) = &got {
+                        self.boundaries = vec![Boundary { rows: rows_after.len(), snap: s.clone(), n_msgs }];
+                    }
+                }
                 // a twin that never restarted: initial zone + the surviving messages
                 let twin = c12::new_handler(&self.origin, &self.initial);
                 for (p, u) in &self.msgs {
@@ -209,7 +292,7 @@ fn exec(line: &str, hist: &mut Hist, rec: &mut Recorder) {
             hist.origin = o;
             hist.initial = rs;
             hist.msgs.clear();
-            hist.boundaries = vec![Boundary { rows, snap: s }];
+            hist.boundaries = vec![Boundary { rows, snap: s, n_msgs: 0 }];
             hist.h = Some(h);
             hist.restarts = 0;
             hist.n_files = 0;
@@ -232,7 +315,7 @@ fn exec(line: &str, hist: &mut Hist, rec: &mut Recorder) {
             rec.stat("op.upd");
             rec.stat(&format!("upd.{stage}.{res}"));
             let prev_rows = hist.boundaries.last().map(|b| b.rows).unwrap_or(0);
-            rec.stat(&format!("upd.rows-appended.{}", (rows - prev_rows).min(6)));
+            rec.stat(&format!("upd.rows-appended.{}", rows.saturating_sub(prev_rows).min(6)));
             if hist.restarts > 0 {
                 rec.stat("upd.after-restart");
                 rec.nontrivial(idx);
@@ -250,8 +333,13 @@ fn exec(line: &str, hist: &mut Hist, rec: &mut Recorder) {
             if res == "panic" {
                 rec.fail(idx, "update panicked".to_string(), "");
             }
+            if stage == "apply" && !res.starts_with("ok") && res != "panic" {
+                // the rows of this message are in the journal already (write-ahead): replay will meet the same error
+                rec.fail(idx, format!("update_records answered {res} after pre_scan had accepted the update section; its rows are already journalled"), "");
+            }
             hist.msgs.push((p, u));
-            hist.boundaries.push(Boundary { rows, snap: after });
+            let n_msgs = hist.msgs.len();
+            hist.boundaries.push(Boundary { rows, snap: after, n_msgs });
         }
         ["cut", k] | ["cut", k, _] => {
             if let (Some(_), Ok(k)) = (hist.h.as_ref(), k.parse::<usize>()) {
